@@ -39,6 +39,9 @@ def strategy():
         "operand": st.booleans(),
         "dashdash": st.booleans(),
         "noops": st.lists(st.tuples(st.integers(0, 8), st.sampled_from(NOOPS)), max_size=3),
+        # leading / trailing / doubled separators inside the variables, and variables that are set but empty
+        "envdeco": st.tuples(st.sampled_from(["", "", " ", "\t", "  "]), st.sampled_from(["", "", " ", "\t ", "  "]),
+                             st.sampled_from([None, None, None, "", " ", "\t"])),
         "inner": st.lists(st.tuples(st.integers(0, 5), st.integers(0, 6), st.sampled_from(["q", "s", "qs"])), max_size=2),
         "seed": st.integers(0, 10**6),
     })
@@ -99,7 +102,7 @@ def model(name, atoms):
     return dec, out, level, keep, test
 
 
-def run_once(exe, name, env_toks, cmd_toks, sep, operand, dec, td, tag, plain, z):
+def run_once(exe, name, env_toks, cmd_toks, sep, operand, dec, td, tag, plain, z, deco=None):
     """Returns observable dict."""
     d = os.path.join(td, tag)
     os.makedirs(d)
@@ -107,6 +110,10 @@ def run_once(exe, name, env_toks, cmd_toks, sep, operand, dec, td, tag, plain, z
     for var, toks in zip(("LBZIP2", "BZIP2", "BZIP"), env_toks):
         if toks is not None:
             env[var] = sep.join(toks)
+            if deco:
+                env[var] = deco[0] + env[var] + deco[1]      # separators cannot be escaped and delimit nothing here
+        elif deco and deco[2] is not None:
+            env[var] = deco[2]                                # set, but holds no token
     argv = [exe] + cmd_toks
     if operand:
         fn = "data.bz2" if dec else "data"
@@ -180,7 +187,8 @@ def make_eval(exe):
         operand = case["operand"]
         tail = ["--"] if case["dashdash"] else []
         with core.TempDir() as td:
-            o1 = run_once(exe, case["name"], env_toks, cmd + tail, case["sep"], operand, dec, td, "r1", plain, z)
+            o1 = run_once(exe, case["name"], env_toks, cmd + tail, case["sep"], operand, dec, td, "r1", plain, z,
+                          deco=case.get("envdeco"))
             o2 = run_once(exe, case["name"], [None, None, None], toks + tail, case["sep"], operand, dec, td, "r2", plain, z)
             # insert no-ops between *units* (never between "-n" and its argument)
             units = []
